@@ -129,6 +129,29 @@ Fixpoint vfc_measured (measured : list ref) (l : list step) : outcome (list ref)
   | st :: t => bind (sm (measured ++ s_meas st)) (fun m => vfc_measured m t)
   end.
 
+(** What [measured] reads as once [data.References.Exclude(measured...)] returned:
+    Exclude works on a copy of the reference structs, which shares the range
+    arrays.  A list of two or more references went through SortAndMerge before
+    (every array is sorted already); a single reference did not, and fiano's
+    Range.Exclude sorts the array of the exclusion list it is given, which happens
+    iff the two-pointer walk reaches a file reference of the same artifact that
+    has at least one range. *)
+Fixpoint touched (s0 : list ref) (r1 : ref) : bool :=
+  match s0 with
+  | [] => false
+  | r0 :: t0 =>
+      match cmp_ref r0 r1 with
+      | CLt => touched t0 r1
+      | CEq => match rranges r0 with [] => false | _ :: _ => true end
+      | _ => false
+      end
+  end.
+Definition seen_after (frefs measured : list ref) : list ref :=
+  match measured, sm frefs with
+  | [r], Ok s0 => if touched s0 r then [set_ranges r (sort_off (rranges r))] else [r]
+  | _, _ => measured
+  end.
+
 (** [files]: what datasources.UEFIFiles(PE32|PIC|TE).Data returned:
     [Ok refs] (Data.References) or an error. *)
 Definition vfc (files : outcome (list ref)) (l : list step) : outcome (list vissue) :=
@@ -142,7 +165,7 @@ Definition vfc (files : outcome (list ref)) (l : list step) : outcome (list viss
           bind (exclude frefs measured) (fun nm =>
           match nm with
           | [] => Ok []
-          | _ => Ok [mkVI last 6 (resolved nm) (resolved measured)]
+          | _ => Ok [mkVI last 6 (resolved nm) (resolved (seen_after frefs measured))]
           end)
       | _ => Ok [mkVI last 5 [] []]
       end)
